@@ -113,7 +113,8 @@ def minc_case():
                                  st.lists(st.sampled_from([10.0, 40.0, 80.0]), min_size=1, max_size=3)))
         return {'k': 'minc', 'rc': rc, 'vf': vf, 'nfp': nfp, 'spacing': spacing,
                 'select': draw(st.one_of(st.none(), st.lists(st.integers(0, 200), min_size=1, max_size=8))),
-                'boundary': draw(st.sampled_from(['none', 'zero', 'huge', 'both']))}
+                'boundary': draw(st.sampled_from(['none', 'zero', 'huge', 'both'])),
+                'host_standin': draw(st.booleans())}
     return s()
 
 
@@ -298,8 +299,14 @@ def run_minc(case, R):
         s2 = t2grids.t2block('Zz 99', 0.5, sub.rocktypelist[0], centre=[0., 0., 1.])
         sub.add_block(s1); sub.add_block(s2)
         sub.add_connection(t2grids.t2connection([s1, s2], 1, [0.1, 0.2], 1.0, 0.0))
+        # embed() resolves the connection's blocks by name: the host block may be given as the grid's own object
+        # or as a stand-in block of the same name (e.g. taken from a second grid built from the same geometry)
+        hostarg = host
+        if case.get('host_standin'):
+            hostarg = t2grids.t2block(host.name, host.volume, host.rocktype, centre=host.centre)
+            R.label('embed:host-given-as-stand-in')
         with R.lib('embed'):
-            res = grid.embed(sub, t2grids.t2connection([host, s1], 1, [0.3, 0.1], 1.0, 0.0))
+            res = grid.embed(sub, t2grids.t2connection([hostarg, s1], 1, [0.3, 0.1], 1.0, 0.0))
         if R.check(res is not None, 'embed:refused', 'embed returned None although the host (%r) is larger than the sub-grid' % host.volume):
             total1 = sum(float(b.volume) for b in res.blocklist)
             R.check(abs(total1 - total0) <= 1e-12 * total0, 'embed:volume', 'total volume %r -> %r' % (total0, total1))
